@@ -38,14 +38,15 @@ Example C11_example :
   end = true.
 Proof. vm_compute. reflexivity. Qed.
 
-(* ---------- the grammar side for fifteen clauses, any number, subset and order -------------------------------------------------------------
+(* ---------- the grammar side for eighteen clauses, any number, subset and order ------------------------------------------------------------
    For EVERY statement  CREATE TABLE ... ( columns [, table-level clauses] )  clause*  with
      clause = TABLESPACE n | STORED AS f | LOCATION 'p' | ENGINE = e | COMMENT = 'c' | USING f | IN n | ROW FORMAT SERDE 'class' |
               ROW FORMAT word | word TERMINATED BY 'c' (FIELDS, LINES ...) | COLLECTION ITEMS TERMINATED BY 'c' |
-              MAP KEYS TERMINATED BY 'c' | COMMENT 'text' | word word (DISTSTYLE EVEN ...) | INTO n BUCKETS
+              MAP KEYS TERMINATED BY 'c' | COMMENT 'text' | word word (DISTSTYLE EVEN ...) | INTO n BUCKETS |
+              word (name) (DISTKEY (a)) | ON filegroup | TEXTIMAGE_ON filegroup
    (any number, any subset, any order, repetitions included; TABLESPACE x directly followed by IN or by a plain word is excluded:
    the grammar reads that as one tablespace clause with properties) the model — real keyword tables and flag logic, real LALR
-   tables (324-configuration invariant),
+   tables (338-configuration invariant),
    modelled actions — returns the entity of the clause-free statement with, for every clause in order, the clause's key set to
    the clause's value ([Table.denote_x]). *)
 Theorem C11_clauses_after_the_table_exact : forall tx norm silent, Table.wf_x norm tx = true ->
